@@ -48,7 +48,7 @@ fn store(prior: bool, sched: Option<&Sched>) -> Store {
         // the previous version, written through the backend itself
         let fs = FileSystem::new(&root).unwrap();
         let fut = async {
-            fs.put_object(req(PutObjectInput { bucket: "bkt".into(), key: "k".into(), body: Some(blob_of(OLD, 1)), content_length: Some(OLD.len() as i64), ..gb() }, None)).await.unwrap();
+            fs.put_object(req(PutObjectInput { bucket: "bkt".into(), key: "k".into(), body: Some(blob_of(OLD, 1)), content_length: Some(OLD.len() as i64), metadata: Some([("m".to_owned(), "old".to_owned())].into_iter().collect()), ..gb() }, None)).await.unwrap();
         };
         match sched {
             Some(s) => s.block_on(fut),
@@ -80,6 +80,36 @@ fn later_read_with(fs: &FileSystem, sched: Option<&Sched>) -> Result<Vec<u8>, St
     match sched {
         Some(s) => s.block_on(fut),
         None => block_on(fut),
+    }
+}
+
+/// the user metadata value `m` a later HEAD returns (None = no such metadata / no object)
+fn later_meta(fs: &FileSystem, sched: Option<&Sched>) -> Option<String> {
+    let fut = async { fs.head_object(req(HeadObjectInput { bucket: "bkt".into(), key: "k".into(), ..gb() }, None)).await.ok().and_then(|r| r.output.metadata).and_then(|m| m.get("m").cloned()) };
+    match sched {
+        Some(s) => s.block_on(fut),
+        None => block_on(fut),
+    }
+}
+
+/// "completely or not at all" for the metadata that is written with the object: the (content, metadata) pair a later read
+/// returns is the previous version's or the new version's, never the content of one with the metadata of the other
+fn judge_version(a: &mut Acc, part: &str, order: u64, id: String, prior: bool, new: (&[u8], Option<&str>), read: &Result<Vec<u8>, String>, meta: &Option<String>, ctx: serde_json::Value) {
+    let Ok(bytes) = read else { return };
+    let want = if prior && bytes == OLD {
+        Some("old")
+    } else if bytes == new.0 {
+        new.1
+    } else {
+        return; // partial / mixed content is judge_state's finding
+    };
+    if meta.as_deref() == want {
+        a.outcome(&format!("{part}: content and metadata of one version"));
+    } else {
+        a.outcome(&format!("{part}: CONTENT AND METADATA OF DIFFERENT VERSIONS"));
+        // which half is ahead is part of the identity: today the object is installed first and its metadata file written afterwards
+        let which = if bytes == new.0 { "new-content-with-the-previous-versions-metadata" } else { "previous-content-with-the-new-versions-metadata" };
+        a.fail(&format!("C19/{part}/{which}"), order, id, format!("a later read returns the {} content with user metadata m={meta:?} (that version has m={want:?})", if bytes == new.0 { "new" } else { "previous" }), ctx);
     }
 }
 
@@ -327,6 +357,21 @@ enum Write {
     Put { frames: usize, len: usize },
     PutWithChecksum,
     Complete,
+    /// CopyObject from bkt/src (content + metadata m=src) onto bkt/k
+    Copy,
+}
+
+const SRC: &[u8] = b"SRC-CONTENT-of-the-copy-source-object";
+
+impl Write {
+    /// user metadata value `m` of the version this write installs
+    fn meta(self) -> Option<&'static str> {
+        match self {
+            Write::Put { .. } | Write::Complete => None,
+            Write::PutWithChecksum => Some("new"),
+            Write::Copy => Some("src"),
+        }
+    }
 }
 
 fn content_for(w: usize, len: usize) -> Vec<u8> {
@@ -344,6 +389,7 @@ fn write_task(fs: &Arc<FileSystem>, kind: Write, content: Vec<u8>, upload_id: Op
                 let crc = b64(&crc32fast::hash(&content).to_be_bytes());
                 fs.put_object(req(PutObjectInput { bucket: "bkt".into(), key: "k".into(), body: Some(blob_of(&content, 2)), content_length: Some(content.len() as i64), checksum_crc32: Some(crc), metadata: Some([("m".to_owned(), "new".to_owned())].into_iter().collect()), ..gb() }, None)).await.map(|_| ()).map_err(|e| e.code().as_str().to_owned())
             }
+            Write::Copy => fs.copy_object(req(CopyObjectInput { bucket: "bkt".into(), key: "k".into(), copy_source: CopySource::Bucket { bucket: "bkt".into(), key: "src".into(), version_id: None }, ..gb() }, None)).await.map(|_| ()).map_err(|e| e.code().as_str().to_owned()),
             Write::Complete => fs
                 .complete_multipart_upload(req(CompleteMultipartUploadInput { bucket: "bkt".into(), key: "k".into(), upload_id: upload_id.unwrap(), multipart_upload: Some(CompletedMultipartUpload { parts: Some(vec![CompletedPart { part_number: Some(1), ..gb() }, CompletedPart { part_number: Some(2), ..gb() }]) }), ..gb() }, None))
                 .await
@@ -358,6 +404,12 @@ fn prepare(sched: &Sched, st: &Store, kind: Write) -> (Vec<u8>, Option<String>) 
     match kind {
         Write::Put { len, .. } => (content_for(1, len), None),
         Write::PutWithChecksum => (content_for(1, 9000), None),
+        Write::Copy => {
+            sched.block_on(async {
+                st.fs.put_object(req(PutObjectInput { bucket: "bkt".into(), key: "src".into(), body: Some(blob_of(SRC, 1)), content_length: Some(SRC.len() as i64), metadata: Some([("m".to_owned(), "src".to_owned())].into_iter().collect()), ..gb() }, None)).await.unwrap();
+            });
+            (SRC.to_vec(), None)
+        }
         Write::Complete => {
             let p1: Vec<u8> = vec![b'P'; 5 * 1024 * 1024];
             let p2 = b"tail".to_vec();
@@ -381,7 +433,7 @@ fn copy_tree(from: &Path, to: &Path) {
 }
 
 fn part_bc(acc: &mut Acc, tier: Tier) {
-    let mut kinds = vec![Write::Put { frames: 1, len: 10 }, Write::Put { frames: 3, len: 9000 }, Write::Put { frames: 2, len: 20_000 }, Write::PutWithChecksum];
+    let mut kinds = vec![Write::Put { frames: 1, len: 10 }, Write::Put { frames: 3, len: 9000 }, Write::Put { frames: 2, len: 20_000 }, Write::PutWithChecksum, Write::Copy];
     if tier == Tier::Thorough {
         kinds.push(Write::Complete);
         kinds.push(Write::Put { frames: 8, len: 70_000 });
@@ -451,6 +503,8 @@ fn part_bc(acc: &mut Acc, tier: Tier) {
                         let read = later_read_with(&st.fs, Some(&sched));
                         // the one known site: the request is dropped while File::create of the temporary file is queued
                         let site = if p + 1 == create_step { "@creation-of-the-temporary-file-queued".to_owned() } else { format!("@step-{p}") };
+                        let meta = later_meta(&st.fs, Some(&sched));
+                        judge_version(a, "abandon-while-call-queued", p as u64, id(), *prior, (&content, kind.meta()), &read, &meta, ctxv.clone());
                         judge_state_at(a, "abandon-while-call-queued", &site, p as u64, id(), *prior, &[&content], true, &read, &tmps, ctxv);
                     }
                     "abandon-after-completion" => {
@@ -463,6 +517,8 @@ fn part_bc(acc: &mut Acc, tier: Tier) {
                         let read = later_read_with(&st.fs, Some(&sched));
                         // the one known site: the temporary file exists but the task has not yet seen File::create return (no guard yet)
                         let site = if p == create_step { "@temporary-file-created-but-not-yet-guarded".to_owned() } else { format!("@step-{p}") };
+                        let meta = later_meta(&st.fs, Some(&sched));
+                        judge_version(a, "abandon-between-calls", p as u64, id(), *prior, (&content, kind.meta()), &read, &meta, ctxv.clone());
                         judge_state_at(a, "abandon-between-calls", &site, p as u64, id(), *prior, &[&content], true, &read, &tmps, ctxv);
                     }
                     _ => {
@@ -471,6 +527,8 @@ fn part_bc(acc: &mut Acc, tier: Tier) {
                         copy_tree(&st.root, &crash_dir);
                         let read = later_read(&crash_dir, Some(&sched)); // FileSystem::new runs the start-up cleaning
                         let tmps = tmp_files(&crash_dir);
+                        let meta = FileSystem::new(&crash_dir).ok().and_then(|fs| later_meta(&fs, Some(&sched)));
+                        judge_version(a, "crash-and-restart", p as u64, id(), *prior, (&content, kind.meta()), &read, &meta, ctxv.clone());
                         judge_state(a, "crash-and-restart", p as u64, id(), *prior, &[&content], true, &read, &tmps, ctxv);
                         {
                             let _e = sched.rt.enter();
@@ -708,7 +766,7 @@ pub fn run(ctx: &Ctx) -> (Acc, Report) {
     }
     let rep = Report {
         level: "fault_enumeration",
-        rule: format!("(a) PutObject through S3Service::call with s3s-fs behind it: body I/O error after k of n frames for n in {{1,2,4}}, k in 0..n; wrong and right checksum for CRC32, CRC32C, SHA-1, SHA-256; corrupted signature in chunk k of a 1-, 2-, 3-chunk chunk-signed body (incl. the final chunk); each with the key absent and present; writes whose final rename / directory step fails (a directory where the object should go, a file where a directory is needed). (b) every abandon point: the request future dropped after every step p, both while the submitted file-system call is still queued and after it has completed; (c) every crash point: the tree copied after every step and restarted with FileSystem::new; for writes {:?}. (d) all interleavings at file-system-call granularity of two writers (10 B vs 9000 B) and of writer + reader; two writers + reader and three writers with at most {} preemption(s). Oracle: a later read returns the previous state or one complete version, the reader receives one complete version, the final content is one writer's bytes, no .tmp.* file remains. Distinct by id.", if ctx.tier == Tier::Thorough { "put x4, put+checksum, complete-multipart (5 MiB + 4 B)" } else { "put x3 sizes/framings, put+checksum+metadata" }, ctx.tier.pick(1, 2)),
+        rule: format!("(a) PutObject through S3Service::call with s3s-fs behind it: body I/O error after k of n frames for n in {{1,2,4}}, k in 0..n; wrong and right checksum for CRC32, CRC32C, SHA-1, SHA-256; corrupted signature in chunk k of a 1-, 2-, 3-chunk chunk-signed body (incl. the final chunk); each with the key absent and present; writes whose final rename / directory step fails (a directory where the object should go, a file where a directory is needed). (b) every abandon point: the request future dropped after every step p, both while the submitted file-system call is still queued and after it has completed; (c) every crash point: the tree copied after every step and restarted with FileSystem::new; for writes {:?}. (d) all interleavings at file-system-call granularity of two writers (10 B vs 9000 B) and of writer + reader; two writers + reader and three writers with at most {} preemption(s). Oracle: a later read returns the previous state or one complete version - content and user metadata of the same version -, the reader receives one complete version, the final content is one writer's bytes, no .tmp.* file remains. Distinct by id.", if ctx.tier == Tier::Thorough { "put x4, put+checksum+metadata, copy-object, complete-multipart (5 MiB + 4 B)" } else { "put x3 sizes/framings, put+checksum+metadata, copy-object (content + metadata)" }, ctx.tier.pick(1, 2)),
         exhaustive: true,
         extra: json!({"granularity": "one step = one task runs from one file-system await to the next (tokio blocking pool of one thread, gated)"}),
         assumptions: vec![
